@@ -4,5 +4,6 @@
 
 pub mod prng;
 pub mod out;
+pub mod frames;
 pub mod spec13;
 pub mod streams;
